@@ -251,6 +251,19 @@ def scripted_family(run, fam, quick):
         tl = [[R, D("c1", "silent"), T("c1")], [R, D("c1", "valid"), S("c1", "op"), T("c1")], [R, D("c1", "valid"), T("c1"), stop1]]
         out += [(b, {"unbind_route": "0", "read_timeout_ms": ms, "tls": "tls"}) for b in scen.scripted(run, tl, dict(base, TLSMode='"server"'))]
         return out
+    elif fam == "tls-stall":
+        # peers that connect to a TLS listener and then stall (never start the handshake / send half a record / plaintext):
+        # later connections are accepted and served all the same
+        R, D = {"a": "run"}, lambda c, k="valid": {"a": "dial", "c": c, "k": k}
+        S = lambda c, k, hold=False: {"a": "send", "c": c, "k": k, "hold": hold}
+        consts = {"Conns": '{"c1", "c2", "c3"}', "MaxReq": "2", "FrameKinds": '{"op"}'}
+        scripts = [[R, D("c1", "silent"), D("c2"), S("c2", "op"), D("c3"), S("c3", "op"), S("c2", "op")],
+                   [R, D("c1", "silent"), D("c2", "silent"), D("c3"), S("c3", "op"), {"a": "stop", "s": "s1"}],
+                   [R, D("c1"), S("c1", "op", True), D("c2", "garbage"), D("c3"), S("c3", "op"), {"a": "release", "c": "c1", "i": 1}]]
+        out = []
+        for mode, tm in (("tls", '"server"'), ("mtls", '"mtls"')):
+            out += [(b, {"unbind_route": "0", "tls": mode}) for b in scen.scripted(run, scripts, dict(consts, TLSMode=tm))]
+        return out
     elif fam == "idle":
         # long-lived sessions: a connection that has been idle for a while (11 s; thorough 31 s) is served like a fresh one
         # (nothing armed at accept / handshake time may cut it off later), plain and on a TLS listener, with a handler
@@ -363,7 +376,7 @@ def scripted_family(run, fam, quick):
     return [(b, dict(cfgs[n % len(cfgs)])) for n, b in enumerate(behs)]
 
 
-SCRIPTED = {"deep", "manyconns", "ready", "stopstates", "starttls2", "starttls-inflight", "starttls-close", "timeout", "starttls-adversarial", "outliving", "idle"}
+SCRIPTED = {"deep", "manyconns", "ready", "stopstates", "starttls2", "starttls-inflight", "starttls-close", "timeout", "starttls-adversarial", "outliving", "idle", "tls-stall"}
 
 
 def run_families(run, names, cap):
